@@ -59,7 +59,7 @@ func init() {
 		},
 	}
 	Props["C13"] = PropDef{
-		Explanation: "R-WIRESYM for Chunk, Section, BlockEntity, lightData, ChunkPos: the network writer and reader list the same wire kinds in the same order at every level. R-PANIC(G): height maps from the wire are length-checked before NewBitStorage. R-ORDER: SetBlock reads the old state before storing the new one and updates BlockCount by one conditional decrement (old not air) and one conditional increment (new not air). Not decided: value preservation, registry bijection, light arrays.",
+		Explanation: "R-WIRESYM for Chunk, Section, BlockEntity, lightData, ChunkPos: the network writer and reader list the same wire kinds in the same order at every level. R-PANIC(G): height maps from the wire are length-checked before NewBitStorage. R-ORDER: SetBlock reads the old state before storing the new one and updates BlockCount by one conditional decrement (old not air) and one conditional increment (new not air). R-NOALIAS: in the save<->network conversions a decode target that outlives a loop iteration is not copied out inside the loop (nbt.RawMessage re-uses its buffer). Not decided: value preservation, registry bijection, light arrays.",
 		Run: func(c *Ctx) []core.Ob {
 			names := map[string]bool{"Chunk": true, "Section": true, "BlockEntity": true, "lightData": true, "ChunkPos": true}
 			obs := c.wireObs(func(p, t string) bool { return p == "level" && names[t] })
@@ -70,6 +70,7 @@ func init() {
 			obs = append(obs, c.HeightMapBits()...)
 			obs = append(obs, c.HeightMapKeys()...)
 			obs = append(obs, c.PaletteResizeCopiesAll()...)
+			obs = append(obs, c.LoopDecodeTargets("level", "save")...)
 			return obs
 		},
 	}
